@@ -7,6 +7,7 @@ import (
 	"net/http"
 	"net/url"
 	"reflect"
+	"regexp"
 	"strings"
 
 	"github.com/gookit/rux"
@@ -53,7 +54,9 @@ type regExec struct {
 	routes []*rux.Route
 	useCtl bool
 	style  int // varies which registration API realises an "add" statement
-	trace  *traceWriter
+	// every group prefix gets a path variable appended
+	varPrefix bool
+	trace     *traceWriter
 	// shared != nil: every statement's middleware is a sub-slice (with spare capacity) of ONE caller-owned list, the
 	// way an application passes mws[:k]... ; the router must not write into the caller's list
 	shared []rux.HandlerFunc
@@ -130,10 +133,14 @@ func (x *regExec) run(prog []regStmt, i int) int {
 			if st.Common {
 				gmw = x.commonList()[:st.Mw] // a prefix of the caller's list, with spare capacity behind it
 			}
+			prefix := tokStr(st.Prefix)
+			if x.varPrefix {
+				prefix = strings.TrimRight(prefix, "/ ") + fmt.Sprintf("/{v%d}", pos)
+			}
 			if x.useCtl && pos%2 == 0 {
-				x.r.Controller(tokStr(st.Prefix), ctrlFunc(func(*rux.Router) { body() }), gmw...)
+				x.r.Controller(prefix, ctrlFunc(func(*rux.Router) { body() }), gmw...)
 			} else {
-				x.r.Group(tokStr(st.Prefix), body, gmw...)
+				x.r.Group(prefix, body, gmw...)
 			}
 			i = next
 			continue
@@ -174,16 +181,20 @@ func (x *regExec) run(prog []regStmt, i int) int {
 	return i
 }
 
+var regVarRe = regexp.MustCompile(`\{v\d+\}`)
+
 func regReplay(s *Summary, raw json.RawMessage) {
 	var c regCase
 	if err := json.Unmarshal(raw, &c); err != nil {
 		fatal("bad reg case: %v", err)
 	}
 	s.sample(c)
-	for variant := 0; variant < 3; variant++ {
+	for variant := 0; variant < 4; variant++ {
 		useCtl := variant == 1
 		log := [][]any{}
-		x := &regExec{r: rux.New(), log: &log, useCtl: useCtl, style: variant}
+		// variant 3: every group prefix ends in a path variable ("/a" -> "/a/{v<k>}"): a plain route inside such a group is a
+		// dynamic route, it is reached with any value and runs the same chain
+		x := &regExec{r: rux.New(), log: &log, useCtl: useCtl, style: variant, varPrefix: variant == 3}
 		if variant == 2 {
 			x.offs = map[int]int{}
 			x.shared = []rux.HandlerFunc{}
@@ -225,7 +236,9 @@ func regReplay(s *Summary, raw json.RawMessage) {
 			rt := x.routes[k]
 			s.Compared++
 			wantPath := tokStr(er.Path)
-			if rt.Path() != wantPath {
+			if x.varPrefix {
+				wantPath = regVarRe.ReplaceAllString(rt.Path(), "7") // (the registered path is not the model's here; request it with values)
+			} else if rt.Path() != wantPath {
 				s.mismatch(desc("path", fmt.Sprintf("program %v: route #%d Path() = %q, spec %q", progText(c.Prog), k+1, rt.Path(), wantPath)), c)
 				continue
 			}
@@ -248,8 +261,9 @@ func regReplay(s *Summary, raw json.RawMessage) {
 			// another route may be registered under the same path earlier (same method+path: the later one wins in the
 			// stable map); only compare when this route is the last one with that path
 			shadowed := false
-			for j := k + 1; j < len(c.Routes); j++ {
-				if tokStr(c.Routes[j].Path) == wantPath {
+			for j := range c.Routes {
+				// (static routes: the later one wins; dynamic routes - all routes inside groups of variant 3 - the earlier one)
+				if j != k && (j > k || x.varPrefix) && tokStr(c.Routes[j].Path) == tokStr(er.Path) {
 					shadowed = true
 				}
 			}
